@@ -47,6 +47,8 @@ class Trace:
         self.dag.on_domain = self._on_dom
         self.rtol = 1e-7
         self.notes = []
+        self.contracts = []
+        self.known_inverse = {}
 
     def _on_den(self, b):
         if b not in self.denominators:
@@ -1816,3 +1818,122 @@ def _patched_as_tensor(data, *args, **kwargs):
     if _CUR[0] is not None and _contains_sym(data):
         return _patched_tensor(data, *args, **kwargs)
     return _real_as_tensor(data, *args, **kwargs)
+
+
+# ------------------------------------------------------------ contract stubs
+def _fresh_matrix(prefix, values):
+    t = cur()
+    k = next(t.fresh_counter)
+    return new_vars(f'{prefix}!{k}', values), k
+
+
+@handler('linalg_eigh')
+def h_eigh(func, args, kwargs):
+    """Functional contract stub: e, V = eigh(S) with S = V diag(e) V^T, V^T V = V V^T = I.
+    The contract rows are recorded in trace.contracts (hypotheses for lemma selection).
+    eigh reads only one triangle: symmetry of S is recorded as an OBLIGATION."""
+    S = args[0]
+    t = cur()
+    d = t.dag
+    if S._ids.dim() != 2:
+        raise UnsupportedOp('eigh on batched symbolic matrices (run one batch element at a time)')
+    ev, V = torch.linalg.eigh(S._v)
+    e_s, k = _fresh_matrix('eig_e', ev)
+    V_s, _ = _fresh_matrix('eig_v', V)
+    n = S._ids.shape[-1]
+    Si = S._ids.tolist()
+    ei = e_s._ids.tolist()
+    Vi = V_s._ids.tolist()
+    recon = {}
+    recon_lhs = {}
+    for i in range(n):
+        for j in range(n):
+            acc = 0
+            for m in range(n):
+                acc = d.add(acc, d.mul(d.mul(Vi[i][m], ei[m]), Vi[j][m]))
+            recon[(i, j)] = d.eq(acc, Si[i][j])
+            recon_lhs[(i, j)] = acc
+    ortho_rows = {}
+    ortho_cols = {}
+    for i in range(n):
+        for j in range(n):
+            acc = 0
+            acc2 = 0
+            for m in range(n):
+                acc = d.add(acc, d.mul(Vi[i][m], Vi[j][m]))
+                acc2 = d.add(acc2, d.mul(Vi[m][i], Vi[m][j]))
+            ortho_rows[(i, j)] = d.eq(acc, 1 if i == j else 0)
+            ortho_cols[(i, j)] = d.eq(acc2, 1 if i == j else 0)
+    sym = d.and_(*[d.eq(Si[i][j], Si[j][i]) for i in range(n) for j in range(i + 1, n)])
+    if not hasattr(t, 'contracts'):
+        t.contracts = []
+    if not hasattr(t, 'known_inverse'):
+        t.known_inverse = {}
+    t.contracts.append({'kind': 'eigh', 'S': S, 'e': e_s, 'V': V_s, 'recon': recon, 'recon_lhs': recon_lhs, 'ortho_rows': ortho_rows,
+                        'ortho_cols': ortho_cols, 'symmetric_obligation': sym})
+    t.known_inverse[tuple(V_s._ids.reshape(-1).tolist())] = V_s._ids.t().clone()
+    t.stubs_used.append('linalg.eigh')
+    return torch.return_types.linalg_eigh((e_s, V_s))
+
+
+@handler('inverse', 'linalg_inv')
+def h_inverse(func, args, kwargs):
+    A = args[0]
+    t = cur()
+    d = t.dag
+    key = tuple(A._ids.reshape(-1).tolist())
+    ki = getattr(t, 'known_inverse', {})
+    if key in ki:
+        # inverse of the orthonormal eigenvector matrix returned by the eigh stub: V^-1 = V^T (contract)
+        ids = ki[key]
+        return SymTensor(torch.linalg.inv(A._v), ids.clone())
+    if A._ids.dim() != 2:
+        raise UnsupportedOp('inverse of batched symbolic matrix')
+    W = torch.linalg.inv(A._v)
+    W_s, _ = _fresh_matrix('inv', W)
+    n = A._ids.shape[-1]
+    Ai = A._ids.tolist()
+    Wi = W_s._ids.tolist()
+    left, right = {}, {}
+    for i in range(n):
+        for j in range(n):
+            a1 = a2 = 0
+            for m in range(n):
+                a1 = d.add(a1, d.mul(Wi[i][m], Ai[m][j]))
+                a2 = d.add(a2, d.mul(Ai[i][m], Wi[m][j]))
+            left[(i, j)] = d.eq(a1, 1 if i == j else 0)
+            right[(i, j)] = d.eq(a2, 1 if i == j else 0)
+    if not hasattr(t, 'contracts'):
+        t.contracts = []
+    t.contracts.append({'kind': 'inverse', 'A': A, 'W': W_s, 'left': left, 'right': right})
+    t.stubs_used.append('inverse')
+    return W_s
+
+
+@handler('matrix_exp', 'linalg_matrix_exp')
+def h_matrix_exp(func, args, kwargs):
+    """expm stub: result entries are uninterpreted functions of ALL entries of the argument matrix
+    (congruence: equal arguments give equal results); the argument is recorded for inspection."""
+    A = args[0]
+    t = cur()
+    d = t.dag
+    rv = torch.matrix_exp(A._v)
+    n = A._ids.shape[-1]
+    flatA = A._ids.reshape(-1, n * n).tolist()
+    flatV = rv.reshape(-1, n * n).tolist()
+    out = []
+    for row, vals in zip(flatA, flatV):
+        o = []
+        for pos in range(n * n):
+            name = f'expm{n}_{pos // n}_{pos % n}'
+            key = (name, tuple(d.vals[x] for x in row))
+            d.uf_witness[key] = vals[pos]
+            o.append(d.uf(name, *row))
+        out.append(o)
+    ids = _real_tensor(out, dtype=I64).reshape(A._ids.shape)
+    if not hasattr(t, 'contracts'):
+        t.contracts = []
+    res = SymTensor(rv, ids)
+    t.contracts.append({'kind': 'matrix_exp', 'A': A, 'out': res})
+    t.stubs_used.append('matrix_exp')
+    return res
